@@ -6,4 +6,5 @@ MODULES = [
     'contracts.c_print',
     'contracts.c_input',
     'contracts.c_errors',
+    'contracts.c_expr',
 ]
